@@ -94,6 +94,8 @@ impl<Wrapped: ContentAdder> CachedContentAdder<Wrapped> {
         comp_hint: CompHint,
     ) -> std::io::Result<crate::ContentAddress> {
         let mut hasher = blake3::Hasher::new();
+        // Hash (and store) the whole stream, whatever position the reader is handed at.
+        reader.rewind()?;
         if reader.size() < cluster::CLUSTER_SIZE {
             let mut buf = Vec::with_capacity(reader.size().into_u64() as usize);
             reader.read_to_end(&mut buf)?;
